@@ -6,7 +6,15 @@
 (*   "param"    torch Parameter                    (in state_dict)         *)
 (*   "buffer"   registered buffer (constraint bounds, prior parameters,    *)
 (*              grids, variational flags ...)      (in state_dict)         *)
-(*   "lazybuf"  buffer registered only by the first forward call           *)
+(*   "lazybuf"  PERSISTENT buffer registered only by the first forward     *)
+(*              call (lazily drawn random features): in the state_dict     *)
+(*              once it exists; a receiver that is not in the same "has    *)
+(*              been called" state rejects / misses the key (loud)         *)
+(*   "npbuf"    NON-persistent buffer (or tensor attribute) created by the *)
+(*              first forward call whose value is neither fixed by the     *)
+(*              constructor nor derived from carried state: it never       *)
+(*              reaches the state_dict, a strict load succeeds and the     *)
+(*              receiver keeps / draws its own value (silent)              *)
 (*   "ctor"     plain attribute fixed by the constructor arguments         *)
 (*   "random"   plain attribute drawn at construction (differs between two *)
 (*              constructions)                                             *)
@@ -20,7 +28,17 @@
 (*              parameter version it was computed from                     *)
 (* Mechanisms: "state_dict" into a FRESHLY CONSTRUCTED model of the same   *)
 (* architecture; "pickle"; "deepcopy" (prediction strategies are dropped   *)
-(* by __deepcopy__).                                                       *)
+(* by __deepcopy__).  The RECEIVER of a state_dict has a history of its    *)
+(* own: "fresh" (never called), "called" (one forward pass in training     *)
+(* mode: lazily created state exists, no evaluation caches), "used" (has   *)
+(* also served evaluation-mode predictions - full and mean-only - from ITS *)
+(* parameters: holds foreign caches that the load must drop).              *)
+(*                                                                         *)
+(* The FAILURE MODE of a round trip is part of its outcome (and of the     *)
+(* signature of the replayed cell): "raises-on-load" (loud),               *)
+(* "carrier-missing-from-state-dict" (a prediction-relevant carrier that   *)
+(* exists at the save point has no key), "loads-silently-but-differs".     *)
+(* A known finding about one mode never covers another.                    *)
 (*                                                                         *)
 (* The machine runs a train / eval / predict / step history on the         *)
 (* original, takes a save point at any moment, restores, and compares.     *)
@@ -33,11 +51,12 @@ EXTENDS Integers, Sequences, FiniteSets, TLC
 
 CONSTANTS Kinds,        \* set of carrier kinds present in the family (subset of the kinds above)
           ClosureCapturesOwner,   \* BOOLEAN: some prior closure reads a captured module instead of its argument (current code: FALSE)
+          LoadDropsCaches,        \* BOOLEAN: load_state_dict drops every cache of the receiver, whatever attribute holds it (current code: TRUE)
           MaxV, MaxLen
 
 VARIABLES mode, pv, ran,       \* ran: a forward pass has happened (lazy buffers exist)
           cache,               \* <<>> or <<pv at fill>>
-          restored,            \* <<>> or <<[mech, ok, carriers equal?, cache tag]>> result of the last round trip
+          restored,            \* <<>> or <<[mech, recv, ran, failure mode, cache tag, pv]>> result of the last round trip
           hist
 vars == <<mode, pv, ran, cache, restored, hist>>
 
@@ -50,33 +69,48 @@ Rec(e) == hist' = Append(hist, e)
 Train   == Room /\ mode' = "train" /\ cache' = <<>> /\ UNCHANGED <<pv, ran>> /\ restored' = <<>> /\ Rec([a |-> "Train"])
 Eval    == Room /\ mode' = "eval" /\ cache' = (IF mode = "train" THEN <<>> ELSE cache) /\ UNCHANGED <<pv, ran>> /\ restored' = <<>> /\ Rec([a |-> "Eval"])
 OptStep == Room /\ mode = "train" /\ pv < MaxV /\ pv' = pv + 1 /\ ran' = TRUE /\ UNCHANGED <<mode, cache>> /\ restored' = <<>> /\ Rec([a |-> "OptStep"])
-Predict == Room /\ mode = "eval" /\ cache' = (IF cache = <<>> THEN <<pv>> ELSE cache) /\ ran' = TRUE /\ UNCHANGED <<mode, pv>> /\ restored' = <<>> /\ Rec([a |-> "Predict"])
+\* obs: "full" posterior or "meanonly" (skip_posterior_variances); both fill caches that belong to the current parameter version
+Predict(obs) == Room /\ mode = "eval" /\ cache' = (IF cache = <<>> THEN <<pv>> ELSE cache) /\ ran' = TRUE /\ UNCHANGED <<mode, pv>> /\ restored' = <<>> /\ Rec([a |-> "Predict", obs |-> obs])
+
+Recvs(mech) == IF mech = "state_dict" THEN {"fresh", "called", "used"} ELSE {"none"}
+RecvRan(recv) == recv \in {"called", "used"}
 
 \* which carrier kinds of the ORIGINAL reappear with the same content in the restored model
-Carried(mech, k) ==
-  CASE mech = "state_dict" -> k \in {"param", "buffer", "ctor", "closure"} \/ (k = "lazybuf" /\ ~ran)   \* (closures: those of the fresh construction)   \* nothing to carry before the first forward
+Carried(mech, recv, k) ==
+  CASE mech = "state_dict" -> \/ k \in {"param", "buffer", "ctor", "closure"}             \* (closures: those of the fresh construction)
+                              \/ (k = "lazybuf" /\ ran = RecvRan(recv))                    \* nothing to carry before the first forward (both sides draw at first use); key on both sides after it
+                              \/ (k = "npbuf" /\ ~ran /\ ~RecvRan(recv))                   \* only while neither side has created it
     [] mech = "pickle"     -> (k = "closure" => ~ClosureCapturesOwner)
     [] mech = "deepcopy"   -> (k = "closure" => ~ClosureCapturesOwner)      \* the copy would keep reading the ORIGINAL's parameters
-\* does the mechanism fail outright (load_state_dict raising on unexpected keys)?
-Raises(mech) == mech = "state_dict" /\ "lazybuf" \in Kinds /\ ran
+\* does the mechanism fail outright?  strict load_state_dict: "Unexpected key" (original called, receiver not) / "Missing key" (the reverse)
+Raises(mech, recv) == mech = "state_dict" /\ "lazybuf" \in Kinds /\ ran # RecvRan(recv)
+\* a carrier that exists at the save point and has no key in the state_dict
+Missing(mech) == mech = "state_dict" /\ ran /\ "npbuf" \in Kinds
+Equal(mech, recv) == \A k \in Kinds \ {"cache"} : Carried(mech, recv, k)
+Failure(mech, recv) ==
+  IF Raises(mech, recv) THEN "raises-on-load"
+  ELSE IF Missing(mech) THEN "carrier-missing-from-state-dict"
+  ELSE IF ~Equal(mech, recv) THEN "loads-silently-but-differs"
+  ELSE "none"
 
-RoundTrip(mech) ==
+RoundTrip(mech, recv) ==
   /\ Room
-  /\ restored' = << [mech |-> mech,
-                     raises |-> Raises(mech),
-                     equal |-> \A k \in Kinds \ {"cache"} : Carried(mech, k),
-                     \* caches of the restored model: none after state_dict into a fresh model / deepcopy; copied by pickle
-                     cachetag |-> IF mech = "pickle" THEN cache ELSE <<>>,
+  /\ restored' = << [mech |-> mech, recv |-> recv, ran |-> ran,
+                     failure |-> Failure(mech, recv),
+                     \* caches of the restored model: pickle copies the original's; deepcopy and a fresh / called receiver have none; a USED receiver
+                     \* holds caches of ITS OWN earlier parameters (tag -1), which loading has to drop
+                     cachetag |-> IF mech = "pickle" THEN cache
+                                  ELSE IF recv = "used" /\ ~LoadDropsCaches THEN <<-1>> ELSE <<>>,
                      pv |-> pv] >>
   /\ UNCHANGED <<mode, pv, ran, cache>>
-  /\ Rec([a |-> "RoundTrip", mech |-> mech])
+  /\ Rec([a |-> "RoundTrip", mech |-> mech, recv |-> recv])
 
-Next == Train \/ Eval \/ OptStep \/ Predict \/ \E m \in Mechs : RoundTrip(m)
+Next == Train \/ Eval \/ OptStep \/ (\E o \in {"full", "meanonly"} : Predict(o)) \/ \E m \in Mechs : \E r \in Recvs(m) : RoundTrip(m, r)
 Spec == Init /\ [][Next]_vars
 
 \* ---- properties -----------------------------------------------------------------------------------
 \* every prediction-relevant carrier of the restored model equals the original's, and restoring does not raise
-RoundTripExact == restored # <<>> => (~restored[1].raises /\ restored[1].equal)
+RoundTripExact == restored # <<>> => restored[1].failure = "none"
 \* a restored model never holds a cache computed from other parameters than its own
 NoForeignCache == restored # <<>> /\ restored[1].cachetag # <<>> => restored[1].cachetag[1] = restored[1].pv
 =============================================================================
